@@ -27,6 +27,7 @@ type lkCase struct {
 	Emd     bool   `json:"emd"`
 	Form    string `json:"form"`
 	Upw     string `json:"upw"`
+	Write   int    `json:"write"`
 	MayLeak bool   `json:"mayleak"`
 }
 
@@ -37,6 +38,7 @@ type lkRec struct {
 	Emd     bool   `json:"emd"`
 	Form    string `json:"form"`
 	Upw     string `json:"upw"`
+	Write   int    `json:"write"` // 1: output of api.EncryptFile; 2: second write of one encrypting context
 	Marker  string `json:"marker"`
 	Carried bool   `json:"carried"` // the marker is in the document again after opening the output with the password
 	Visible bool   `json:"visible"` // the marker can be found in the output without the key
@@ -174,9 +176,22 @@ func c23(in, out string, shard, of int) {
 			upw = "user-pw"
 		}
 		// two documents: without and with a signature field (signed documents may be treated differently)
-		type built struct {
-			ctx  *model.Context
+		type output struct {
+			ctx  *model.Context // the output opened with the owner password (nil: it does not open)
 			file []byte
+		}
+		type built struct{ out [3]*output } // by write number
+		reopen := func(file []byte, name string) *output {
+			p := filepath.Join(dir, name)
+			if err := os.WriteFile(p, file, 0o644); err != nil {
+				h.Die("write: %v", err)
+			}
+			ctx, err := proj.Context(p, pwConf("", "owner-pw"))
+			if err != nil {
+				// the output cannot be opened any more: nothing is carried, visibility is still judged
+				ctx = nil
+			}
+			return &output{ctx, file}
 		}
 		build := func(sig bool) *built {
 			d := richDocForm(version, mk, sig, k.form, true)
@@ -190,39 +205,55 @@ func c23(in, out string, shard, of int) {
 			if err := os.WriteFile(src, b, 0o644); err != nil {
 				h.Die("write: %v", err)
 			}
-			conf := encConf(k.alg, upw, "owner-pw")
-			if err := api.EncryptFile(src, enc, conf); err != nil {
+			// write 1: the encrypt operation of the file API
+			if err := api.EncryptFile(src, enc, encConf(k.alg, upw, "owner-pw")); err != nil {
 				h.Die("cannot encrypt the generated document (%v, sig=%v): %v", k, sig, err)
 			}
 			docs++
 			file, _ := os.ReadFile(enc)
-			ctx, err := proj.Context(enc, pwConf("", "owner-pw"))
+			res := &built{}
+			res.out[1] = reopen(file, "enc1.pdf")
+			// write 2: one encrypting context written to two destinations (write, reset the write context, write again);
+			// the second output is the one judged
+			conf := encConf(k.alg, upw, "owner-pw")
+			conf.Cmd = model.ENCRYPT
+			ctx, err := api.ReadValidateAndOptimize(bytes.NewReader(b), conf)
 			if err != nil {
-				// the output cannot be opened any more: nothing is carried, visibility is still judged
-				ctx = nil
+				h.Die("cannot read the generated document for encryption (%v, sig=%v): %v", k, sig, err)
 			}
-			return &built{ctx, file}
+			var first, second bytes.Buffer
+			if err := api.WriteContext(ctx, &first); err != nil {
+				h.Die("first write of the encrypting context (%v, sig=%v): %v", k, sig, err)
+			}
+			ctx.ResetWriteContext()
+			if err := api.WriteContext(ctx, &second); err != nil {
+				h.Die("second write of the encrypting context (%v, sig=%v): %v", k, sig, err)
+			}
+			docs++
+			res.out[2] = reopen(second.Bytes(), "enc2.pdf")
+			return res
 		}
 		var plain, signed *built
 		for _, c := range groups[k] {
 			n++
-			var b *built
-			if c.Loc == "sigcontents" || c.Loc == "sigwidget" {
+			var bt *built
+			if c.Loc == "sigcontents" || c.Loc == "sigwidget" || c.Loc == "sigmeta" {
 				if signed == nil {
 					signed = build(true)
 				}
-				b = signed
+				bt = signed
 			} else {
 				if plain == nil {
 					plain = build(false)
 				}
-				b = plain
+				bt = plain
 			}
+			if c.Write < 1 || c.Write > 2 {
+				h.Die("unknown write number %d", c.Write)
+			}
+			b := bt.out[c.Write]
 			m := mk(c.Loc)
-			r := lkRec{Loc: c.Loc, Alg: c.Alg, Layout: c.Layout, Emd: c.Emd, Form: c.Form, Upw: c.Upw, Marker: m}
-			if c.Loc == "version20-info" {
-				continue
-			}
+			r := lkRec{Loc: c.Loc, Alg: c.Alg, Layout: c.Layout, Emd: c.Emd, Form: c.Form, Upw: c.Upw, Write: c.Write, Marker: m}
 			r.Visible, r.How = visibleIn(b.file, m)
 			if b.ctx != nil {
 				r.Carried = carriedIn(b.ctx, m)
